@@ -12,6 +12,7 @@ mod c06;
 mod c07;
 mod c08;
 mod c09;
+mod c10;
 mod c11;
 mod c12;
 mod c13;
@@ -51,6 +52,7 @@ fn main() {
         "C07" => c07::run(&mut rng, n),
         "C08" => c08::run(&mut rng, n),
         "C09" => c09::run(&mut rng, n),
+        "C10" => c10::run(&mut rng, n, args.iter().any(|a| a == "--thorough")),
         "C11" => c11::run(&mut rng, n),
         "C12" => {
             let slice = (seed % 1000) as usize;
